@@ -70,9 +70,9 @@ func (x *Exec) modified(n ast.Node, ms *modSet) {
 			t := info.TypeOf(e.X)
 			switch u := t.Underlying().(type) {
 			case *types.Slice:
-				ms.heap[x.seKey(x.sortOf(u.Elem()))] = true
+				ms.heap[x.seKey(x.sortOf(u.Elem()), u.Elem())] = true
 			case *types.Array:
-				ms.heap[x.seKey(x.sortOf(u.Elem()))] = true
+				ms.heap[x.seKey(x.sortOf(u.Elem()), u.Elem())] = true
 			case *types.Map:
 				hk, vk := x.mapKeys(x.sortOf(u.Key()), x.sortOf(u.Elem()))
 				ms.heap[hk], ms.heap[vk] = true, true
@@ -127,6 +127,9 @@ func (x *Exec) modified(n ast.Node, ms *modSet) {
 				}
 				return true
 			}
+			if x.isOpaqueCallee(fn) && x.con != nil && x.con.Opts["opaque-havoc"] == "none" {
+				return true // declared to leave the modelled heap unchanged
+			}
 			if fn.Pkg() != nil && x.L.target[fn.Pkg().Path()] && !ms.visited[fn] {
 				ms.visited[fn] = true
 				if fd, fpkg := x.L.funcDeclPkg(fn); fd != nil && fd.Body != nil {
@@ -171,6 +174,15 @@ func (x *Exec) havoc(st *State, n ast.Node) {
 	}
 	for _, k := range sortedKeys(ms.heap) {
 		x.heapHavoc(st, k)
+	}
+	// the body may allocate: the allocation pointer after any number of iterations is at or below now
+	if cur, ok := st.names["$alloc"].(Term); ok || true {
+		if cur.S == "" {
+			cur = intLit(0)
+		}
+		na := x.fresh("alloc", SInt)
+		st.assume("(<= " + na.S + " " + cur.S + ")")
+		st.names["$alloc"] = na
 	}
 	// ghost state the body may advance
 	if _, ok := st.names["callCount"]; ok {
@@ -327,12 +339,12 @@ func (x *Exec) execRange1(s *ast.RangeStmt, sp *LoopSpec, ord int, st *State) []
 		n = x.slen(base)
 		es := x.sortOf(u.Elem())
 		elem = func(c *State, i Term) Value {
-			return Term{"(select " + x.sliceArr(c, base, es).S + " " + i.S + ")", es}
+			return Term{"(select " + x.sliceArr(c, base, es, u.Elem()).S + " " + i.S + ")", es}
 		}
 	case *types.Array:
 		n = intLit(u.Len())
 		es := x.sortOf(u.Elem())
-		arr := x.sliceArr(st, base, es) // ranges over a copy
+		arr := x.sliceArr(st, base, es, u.Elem()) // ranges over a copy
 		elem = func(c *State, i Term) Value { return Term{"(select " + arr.S + " " + i.S + ")", es} }
 	case *types.Basic:
 		if u.Info()&types.IsInteger != 0 {
